@@ -172,8 +172,15 @@ func (r *Reader) decodeG3ScanLine1D() {
 
 	numEOL := 0
 
-	for xpos < r.Columns && r.err == nil {
+	// A run which ends in a make-up code is still followed by its
+	// terminating code (possibly for length 0), even when the make-up code
+	// alone fills the row: the row is complete only once that code has been
+	// consumed.
+	pendingTerm := false
+
+	for (xpos < r.Columns || pendingTerm) && r.err == nil {
 		runLength, state := r.decodeRun(isWhite)
+		pendingTerm = state == S_MakeUpW || state == S_MakeUpB || state == S_MakeUp
 
 		runLength = min(runLength, r.Columns-xpos)
 		r.fillRowBits(xpos, xpos+runLength, isWhite != r.BlackIs1)
